@@ -3,9 +3,16 @@
    input history, never records or reports a rejected subscription, reports removal (StopSubscribe / reboot /
    service stop) once and expiry on time; function-level: a matching running instance answers by exactly one
    queue_send after store_refresh (the listener is consulted BEFORE recording); a StopSubscribe is handled by
-   the store alone.  NOT proved: the end-to-end refinement C06_model_refines_spec; checked on every run. *)
+   the store alone.
+   Over WHOLE RUNS of the full stack model, for every scenario and schedule (Proofs/WorldSubs.v, invariant kept by every
+   callback, loop step and run): the server listeners' notifications are a truthful, strictly alternating history -
+   the latest notification for (instance, subscriber, subscription) is "subscribed, accepted" EXACTLY when that
+   subscription is stored; "subscribed" is only ever notified for a subscription that is not live and "unsubscribed"
+   only for one that is; a rejected subscription is neither recorded nor ever reported gone.
+   NOT proved: the timed part of the refinement (that the history equals the specification's expected_history instant
+   by instant); checked on every run. *)
 From PS Require Import Lib.Base Generated.Consts Model.SdTypes Model.Config Model.Session Model.StackTypes Model.Stack
-  Spec.TraceSpec Spec.StoreSpec Proofs.StoreSpecProofs Proofs.StackOpsProofs.
+  Model.StackIO Spec.TraceSpec Spec.StoreSpec Proofs.StoreSpecProofs Proofs.StackOpsProofs Proofs.KeyEquiv Proofs.WorldInv Proofs.WorldInv2 Proofs.WorldSubs.
 
 Theorem C06_history_alternates : forall touches t_end e,
   expected_history touches t_end = Some e -> alternates true (map snd e) = true.
@@ -27,6 +34,42 @@ Theorem C06_instance_records_then_answers : forall e a i w ins t,
   inst_handle_subscribe e a i w = (queue_send (to_ack_entry sub (if ok then e_ttl e else 0)) (Some a) w1, true).
 Proof. exact inst_answers_once. Qed.
 
+(* over whole runs of the stack: truthful and alternating, in every reachable state of every scenario *)
+Theorem C06_truthful_alternating_history_on_the_stack : forall s sc, d_scenario s = Some sc ->
+  let w := fst (run_scenario sc) in
+  (forall i a k, sub_live i a k (out w) = amem key_eqb (KSub k) (inner a (get_store (SSubs i) w)))
+  /\ alt_ok (out w) = true.
+Proof. exact reachable_subscriptions_truthful. Qed.
+(* the invariant is kept by each TimedStore operation on its own ... *)
+Theorem C06_kept_by_refresh : forall X st ttl a k w, GP X w -> S6 w -> has_store st w = true -> S6 (fst (store_refresh st ttl a k w)).
+Proof. exact S6_store_refresh. Qed.
+Theorem C06_kept_by_stop : forall X st a k w, GP X w -> S6 w -> S6 (store_stop st a k w).
+Proof. exact S6_store_stop. Qed.
+Theorem C06_kept_by_expiry : forall X st a k w, GP X w -> S6 w -> S6 (store_expired st a k w).
+Proof. exact S6_store_expired. Qed.
+Theorem C06_kept_by_reboot_cleanup : forall X st a w, GP X w -> S6 w -> S6 (store_stop_all_for_address st a w).
+Proof. exact S6_store_stop_all_for_address. Qed.
+Theorem C06_kept_by_service_stop : forall X st w, GP X w -> S6 w -> S6 (store_stop_all st w).
+Proof. exact S6_store_stop_all. Qed.
+(* ... and by every step of the loop *)
+Theorem C06_kept_by_every_loop_step : forall w, GGS [] w -> GGS [] (lstep1 w).
+Proof. exact GGS_lstep1. Qed.
+(* alt_ok distinguishes: a proper history / unsubscribed twice / subscribed twice / a rejected subscription reported gone *)
+Example C06_alt_ok_example :
+  let s := mkSub 1 1 1 5 0 3 [] [] in
+  alt_ok [(3, EUnsubscribed 1 s 7); (2, ESubscribed 1 s 7 true); (1, ESubscribed 1 s 7 false)] = true
+  /\ alt_ok [(3, EUnsubscribed 1 s 7); (2, EUnsubscribed 1 s 7); (1, ESubscribed 1 s 7 true)] = false
+  /\ alt_ok [(2, ESubscribed 1 s 7 true); (1, ESubscribed 1 s 7 true)] = false
+  /\ alt_ok [(2, EUnsubscribed 1 s 7); (1, ESubscribed 1 s 7 false)] = false.
+Proof. exact alt_ok_example. Qed.
+
+Print Assumptions C06_truthful_alternating_history_on_the_stack.
+Print Assumptions C06_kept_by_refresh.
+Print Assumptions C06_kept_by_stop.
+Print Assumptions C06_kept_by_expiry.
+Print Assumptions C06_kept_by_reboot_cleanup.
+Print Assumptions C06_kept_by_service_stop.
+Print Assumptions C06_kept_by_every_loop_step.
 Print Assumptions C06_history_alternates.
 Print Assumptions C06_rejected_not_recorded.
 Print Assumptions C06_reboot_before_subscribe.
